@@ -7,7 +7,7 @@ from harness import common, refdes
 PROP = 'C13'
 RULE = ("all PIN lengths 4..12 x PAN lengths 13..19 x digit sweeps at every PIN position (format 0), all PIN lengths x "
         "random fills {1, 2^64-1, random, none supplied} (format 4); encrypted forms under 2-/3-key TDES and AES-128/192/256 "
-        "keys; clear blocks compared with the Lean model and an independent nibble-level construction, TDES ciphertexts "
+        "keys, also keys with equal parts (K1=K2, K2=K3, K1=K3, K1=K2=K3); clear blocks compared with the Lean model and an independent nibble-level construction, TDES ciphertexts "
         "with a from-scratch DES reference, AES with a direct call of `cryptography`. Non-trivial = every case (each has a "
         "distinct PIN/PAN/fill/key); distinct = distinct case")
 TRUSTED = ["Model/PinBlock.lean models Iso0PinBlock/Iso4PinBlock to_bytes/from_bytes (string formatting, int(...,16), XOR, "
@@ -199,6 +199,15 @@ def explore(run, tier):
         pl = 4 + i % 9
         klen = [16, 24][i % 2]
         key = bytes(rng.getrandbits(8) for _ in range(klen)).hex()
+        if i % 10 in (3, 4, 5):
+            # keys with EQUAL parts: K1 = K2 (double length: single-DES equivalent; triple length: K3 still counts),
+            # K2 = K3, K1 = K3 (the triple-length spelling of a double-length key), K1 = K2 = K3
+            k1, k2, k3 = key[:16], key[16:32], key[32:48] or None
+            shape = (i // 10) % 4
+            if k3 is None:
+                key = k1 + k1
+            else:
+                key = [k1 + k1 + k3, k1 + k2 + k2, k1 + k2 + k1, k1 + k1 + k1][shape]
         cases.append({'k': 'enc0', 'pin': digits(pl), 'pan': digits(13 + i % 7), 'key': key})
         akey = bytes(rng.getrandbits(8) for _ in range([16, 24, 32][i % 3])).hex()
         cases.append({'k': 'enc4', 'pin': digits(pl), 'rnd': rng.getrandbits(64) or 1, 'key': akey})
